@@ -206,6 +206,15 @@ type c06Placement struct {
 	Name string
 	G, S, A, B []string
 	DMARC      string // "", "quarantine", "reject"
+	// NullSender: the envelope sender is the null reverse-path (a bounce)
+	NullSender bool `json:",omitempty"`
+}
+
+func (p c06Placement) sender() string {
+	if p.NullSender {
+		return ""
+	}
+	return "s@sender.example"
 }
 
 func c06CheckNode(names []string) config.Node {
@@ -238,6 +247,12 @@ func (p c06Placement) nodes() []config.Node {
 	src = append(src, config.Node{Name: "destination", Args: []string{"a.example"}, Children: blk(p.A, "uA")})
 	src = append(src, config.Node{Name: "destination", Args: []string{"b.example"}, Children: blk(p.B, "uB")})
 	src = append(src, config.Node{Name: "default_destination", Children: blk(nil, "uC")})
+	if p.NullSender {
+		// the null reverse-path matches no source rule: the blocks hang off default_source
+		ns = append(ns, config.Node{Name: "source", Args: []string{"other.example"}, Children: []config.Node{{Name: "reject"}}})
+		ns = append(ns, config.Node{Name: "default_source", Children: src})
+		return ns
+	}
 	ns = append(ns, config.Node{Name: "source", Args: []string{"sender.example"}, Children: src})
 	ns = append(ns, config.Node{Name: "default_source", Children: []config.Node{{Name: "reject"}}})
 	return ns
@@ -312,8 +327,8 @@ func c06Scenario(c c06Case, limit int) vx.ScheduleScenario {
 					w.auth[first] = []authres.Result{&authres.SPFResult{Value: authres.ResultFail, From: "sender.example"}, &authres.DKIMResult{Value: authres.ResultNone}}
 				}
 				ctx := context.Background()
-				meta := &module.MsgMetadata{ID: "c06", OriginalFrom: "s@sender.example"}
-				d, err := p.Start(ctx, meta, "s@sender.example")
+				meta := &module.MsgMetadata{ID: "c06", OriginalFrom: c.Placement.sender()}
+				d, err := p.Start(ctx, meta, c.Placement.sender())
 				if err != nil {
 					obs.mailErr = err
 					return
@@ -461,7 +476,7 @@ func c06Judge(c c06Case, w *c06World, obs *c06Obs) (string, string) {
 	}
 	for ch := range scope {
 		if inScope(ch, "G") || inScope(ch, "S") {
-			if !sawOnce(ch, "conn", "") || !sawOnce(ch, "sender", "s@sender.example") {
+			if !sawOnce(ch, "conn", "") || !sawOnce(ch, "sender", c.Placement.sender()) {
 				return fail("stage-not-seen:mail", "check %s did not see the connection/sender although MAIL was accepted", ch)
 			}
 		}
@@ -506,7 +521,7 @@ func c06Judge(c c06Case, w *c06World, obs *c06Obs) (string, string) {
 				if !sawOnce(ch, "rcpt", r) {
 					return fail("stage-not-seen:rcpt", "check %s did not see accepted recipient %s", ch, r)
 				}
-				if !sawOnce(ch, "conn", "") || !sawOnce(ch, "sender", "s@sender.example") {
+				if !sawOnce(ch, "conn", "") || !sawOnce(ch, "sender", c.Placement.sender()) {
 					return fail("stage-not-seen:replay", "check %s (first met at recipient %s) was not shown the connection/sender", ch, r)
 				}
 			}
@@ -625,7 +640,7 @@ func TestVerifC06(t *testing.T) {
 	r := vx.Start("C06", "checks")
 	defer r.Finish()
 	c06Register()
-	r.Rule("placements of 1-3 scripted checks over global / source / two destination blocks (including the same check referenced in two places) x verdict assignments per stage (none, ignore-with-reason, quarantine, reject; at most V non-none) x envelopes of 1-2 recipients routed to different blocks x atomic and per-recipient body paths (+ DMARC quarantine/reject policy), each on a real pipeline built by msgpipeline.New; check_runner.go/msgpipeline.go scheduler-rewritten: every completion order of the parallel check goroutines and every map iteration order, up to F deviations from the default order; oracle: verdict fold (reject refuses the command, nothing delivered; quarantine flags every target at body time; ignore changes nothing) and call log (each state sees conn/sender/recipient/body at most once, and at least once for every accepted command in scope). Non-trivial: distinct schedules with a non-default order")
+	r.Rule("placements of 1-3 scripted checks over global / source / two destination blocks (including the same check referenced in two places) x verdict assignments per stage (none, ignore-with-reason, quarantine, reject; at most V non-none) x envelopes of 1-2 recipients routed to different blocks, with an ordinary and with the null envelope sender, x atomic and per-recipient body paths (+ DMARC quarantine/reject policy), each on a real pipeline built by msgpipeline.New; check_runner.go/msgpipeline.go scheduler-rewritten: every completion order of the parallel check goroutines and every map iteration order, up to F deviations from the default order; oracle: verdict fold (reject refuses the command, nothing delivered; quarantine flags every target at body time; ignore changes nothing) and call log (each state sees conn/sender/recipient/body at most once, and at least once for every accepted command in scope). Non-trivial: distinct schedules with a non-default order")
 	r.Assume("a quarantine verdict delivered in the same batch as a reject, or for a refused command, may or may not flag the message (the statement does not decide)")
 	V, F := 2, 3
 	if vx.Thorough() {
@@ -643,6 +658,15 @@ func TestVerifC06(t *testing.T) {
 	}
 	if vx.Thorough() {
 		placements = append(placements, c06Placement{Name: "G2-A1", G: []string{"k1", "k2"}, A: []string{"k3"}}, c06Placement{Name: "G1-S1-B1", G: []string{"k1"}, S: []string{"k2"}, B: []string{"k3"}})
+	}
+	// the same placements for a message with the null reverse-path (bounces go through default_source)
+	for _, p := range append([]c06Placement{}, placements...) {
+		if !vx.Thorough() && !(p.Name == "G1" || p.Name == "S1-A1" || p.Name == "A1-B1" || p.Name == "G1-A1same") {
+			continue
+		}
+		p.Name += "-nullsender"
+		p.NullSender = true
+		placements = append(placements, p)
 	}
 	envs := [][]string{{"ra@a.example"}, {"ra@a.example", "rb@b.example"}, {"rb@b.example", "ra@a.example"}}
 	if vx.Thorough() {
